@@ -726,7 +726,7 @@ class SQLTranslator(ASTTranslator):
                     if isinstance(expr_type, (tuple, EntityMeta)) and not distinct and not aggr_func_distinct:
                         aggr_ast = [ 'COUNT', aggr_func_distinct ]
                     else:
-                        aggr_ast = [ 'COUNT', True if aggr_func_distinct is None else aggr_func_distinct,
+                        aggr_ast = [ 'COUNT', bool(distinct) if aggr_func_distinct is None else aggr_func_distinct,
                                      translator.expr_columns[0] ]
                 else:
                     aggr_ast = [ aggr_func_name, aggr_func_distinct, translator.expr_columns[0] ]
